@@ -179,6 +179,11 @@ type Ev struct {
 	TxnQ   [][2]int64 `json:"txn_queue"`
 	VerQ   [][2]int64 `json:"ver_queue"`
 	Ver    int        `json:"ver,omitempty"`
+	// suite failsafe (entry.go): the CURRENT PoliciesData carries diagnosisFreeReverted
+	// (the accessor is serving the diagnosis-free stand-in); flags of the retained
+	// objects, parallel to Retained (nil = none is flagged)
+	Standin bool   `json:"standin,omitempty"`
+	RetFlag []bool `json:"retained_standin,omitempty"`
 	PreEnq bool       `json:"before_enqueue,omitempty"` // read inside setNextVersion, before VacuumKey appended the superseded version
 }
 
@@ -281,13 +286,21 @@ func (h *hist) park(first bool) *sleeper {
 	}
 }
 
-func (h *hist) retained() []int {
+func (h *hist) retained() ([]int, []bool) {
 	var r []int
+	var fl []bool
+	any := false
 	for _, p := range h.acc.VerifC11Retained() {
 		obj, _ := objOf(p)
 		r = append(r, obj)
+		f := standinFlag(p)
+		fl = append(fl, f)
+		any = any || f
 	}
-	return r
+	if !any {
+		fl = nil
+	}
+	return r, fl
 }
 
 // txnNo: "txn-7" (suites hist, fine) / "h12-t7" (suite routing) -> 7
@@ -305,7 +318,7 @@ func txnNo(id config.TxnID) int {
 
 // observe reads the accessor state into e.
 func (h *hist) observe(e *Ev) {
-	e.Retained = h.retained()
+	e.Retained, e.RetFlag = h.retained()
 	st := h.acc.VerifC11State()
 	e.Cur = st.CurrentVersion
 	e.Pins = [][2]int{}
@@ -331,6 +344,7 @@ func (h *hist) ev(a string, txn, obj, tag int, implicit bool) *Ev {
 		e.Via = h.via[obj]
 	}
 	h.observe(&e)
+	e.Standin = standinFlag(h.acc.GetCurrentPoliciesData())
 	if a == "get" || a == "req" || a == "resp" {
 		e.Ver = -1
 		for _, p := range e.Pins {
@@ -1152,12 +1166,24 @@ func run(o *c.Out, k Case) {
 		o.Count("relookup_within_1ns_of_30s")
 	}
 	w.count(o, "")
-	countFailsafe(o, "", &k)
+	_, across := countFailsafe(o, "", &k)
 	idx := o.Case("hist", coq(&k), k, (ups > 0 && relook && removed) || w.firstInsideThenAgain)
 	o.MonitorChecked(1)
 	for _, h := range monitor(&k) {
 		h.Suite, h.Index = "hist", idx
 		o.Hit(h)
+	}
+	// the same executed history with the entry points as distinct operations
+	if term, ok := coqFailsafe(&k); ok {
+		o.Case("failsafe", term, k, across)
+		o.Count("failsafe:cases")
+		standin := false
+		for _, e := range k.Events {
+			standin = standin || e.Standin
+		}
+		if standin {
+			o.Count("failsafe:has_observation_with_the_standin_current")
+		}
 	}
 }
 
@@ -1261,6 +1287,7 @@ func main() {
 	o.DeclareSuite("hist", "From Verif Require Import C11.Model.", "case", "run_case")
 	o.DeclareSuite("routing", "From Verif Require Import C11.Model.", "rcase", "run_rcase")
 	o.DeclareSuite("fine", "From Verif Require Import C11.Model C11.Fine.", "fcase", "run_fcase")
+	o.DeclareSuite("failsafe", "From Verif Require Import C11.Model C11.Failsafe.", "case_failsafe", "run_failsafe")
 	log.Logger = zerolog.New(io.Discard).Hook(fineHook{})
 	o.Rule("histories of look-ups (3-4 transactions), reloads/reverts/refused reloads (fresh object each), " +
 		"clock advances and single passes of the two real vacuum loops: (a) every sequence up to a length bound over " +
@@ -1281,7 +1308,11 @@ func main() {
 		"Entry points (all three suites): about half of the updates of the random generators and dedicated grids go through the REAL RevertToDiagnosisFree / " +
 		"RevertToLastLoaded / ReloadFromFile / UpdateRawData (the harness writes the file they read; the object is built by the code, diagnosisFreeReverted included): " +
 		"fail-safe activates, a request is first seen, the fail-safe is lifted through each entry point (atomic, split at the HAProxy call, held at setNextVersion's clock reading), " +
-		"the response 0 / 1 ns / 5 s / 30 s -1/0/+1 ns later with passes; the fail-safe flapping")
+		"the response 0 / 1 ns / 5 s / 30 s -1/0/+1 ns later with passes; the fail-safe flapping. " +
+		"Suite failsafe: every history of suite hist with at least one update through a real entry point, written once more with the entry points as distinct " +
+		"operations of Failsafe.estep (Via RevertToDiagnosisFree ...) and the observables: object handed out / version anchored, currentVersion, whether the current " +
+		"PoliciesData carries diagnosisFreeReverted (read back by reflection), retained objects with that flag; non-trivial = a transaction first seen while the " +
+		"object installed by RevertToDiagnosisFree was current is seen again < 30 s later after another update")
 	var k Case
 	if suite, ok := o.ReplayCase(&k); ok {
 		if suite == "fine" || k.Fine {
@@ -1322,6 +1353,9 @@ func main() {
 	if entryErrors > 0 {
 		o.Note(fmt.Sprintf("%d calls of a real update entry point failed although HAProxy answered (nothing was installed; recorded as refused updates); first: %s",
 			entryErrors, entryErrMsg))
+	}
+	if standinFieldMissing {
+		o.Note("PoliciesData has no bool field diagnosisFreeReverted: the stand-in flag could not be read (suite failsafe compares false)")
 	}
 	if vacuumNeverStarts {
 		o.Note("a vacuum loop was never seen entering Sleep after the first VacuumKey; its passes could not be driven")
